@@ -165,6 +165,12 @@ func init() {
 						jobs = append(jobs, stepJob("vi-insert", cmd, n, "", "", true, true))
 					}
 				}
+				// yank operator + motion (and the doubled operator yy) never edit
+				if n >= 1 {
+					for _, cmd := range []string{"vi-yank-to", "vi-forward-word", "vi-end-word", "vi-backward-word", "vi-end-of-line", "vi-forward-char", "vi-backward-char", "vi-first-print"} {
+						jobs = append(jobs, stepJob("vi-command", cmd, n, "", "y", true, true))
+					}
+				}
 				for _, cmd := range pureVi {
 					for _, arg := range []string{"", "2"} {
 						if n < 2 && arg != "" && tier != "thorough" {
@@ -360,6 +366,24 @@ func init() {
 				for _, size := range []string{"unset", "sym"} {
 					for _, ln := range lns {
 						for _, k0 := range ks {
+							if variant == "accept" && size == "unset" && ln == lns[0] && k0 == ks[0] {
+								// command level: the accept commands typed in a real Readline call
+								for _, cmd := range []string{"accept-line", "accept-and-hold", "operate-and-get-next", "accept-and-infer-next-history", "abort", "end-of-file"} {
+									for _, ml := range []string{"none", "sym"} {
+										for _, n := range []int{0, 1, 2} {
+											for _, k := range []int{0, 1} {
+												if cmd == "end-of-file" && n > 0 {
+													continue
+												}
+												cj := mkJob(".ZZ_C08_Cmd", shellSetup, "cmd", cmd, "ml", ml, "n", itoa(n), "k", itoa(k))
+												cj.Stubs = paintStubs
+												cj.Reach = []string{"returned|still-editing"}
+												jobs = append(jobs, cj)
+											}
+										}
+									}
+								}
+							}
 							j := mkJob("/internal/history.ZZ_C08_Accept", "", "ns", "1", "k0", itoa(k0), "ln", itoa(ln), "el", itoa(el), "variant", variant, "size", size)
 							j.Reach = []string{"accepted"}
 							jobs = append(jobs, j)
@@ -636,5 +660,35 @@ func init() {
 		Stubs:  []string{"unicode.IsPrint/ToUpper exact formulas; fmt %x model"},
 		Bounds: map[string]string{"quick": "k <= 2 keys", "thorough": "k <= 3 keys"},
 		Rule:   "one state per completed symbolic path",
+	}
+}
+
+func init() {
+	checks["C07"] = &CheckDef{
+		ID: "C07",
+		Jobs: func(tier string, p *Program) []*Job {
+			var jobs []*Job
+			maxS := 3
+			if tier == "thorough" {
+				maxS = 4
+			}
+			for s := 1; s <= maxS; s++ {
+				for _, v := range []string{"walk", "redo", "branch"} {
+					j := mkJob(".ZZ_C07_Undo", shellSetup, "s", itoa(s), "variant", v)
+					j.Stubs = paintStubs
+					j.Reach = []string{"steps-done"}
+					jobs = append(jobs, j)
+				}
+			}
+			return jobs
+		},
+		Assumptions: append([]string{
+			"emacs mode; s symbolic steps over {insert a, insert b, insert space, backspace, kill-line, yank, kill-word, beginning-of-line, end-of-line, undo (walk variant)} typed one key per read; then a fixed tail of undos/redos",
+			"G = the buffers shown at the input waits; initial content = the empty line",
+		}, stepAssumptions[1:]...),
+		Stubs:  []string{"tty ioctls", "stdin = zzverif.Script", "stdout discarded"},
+		Bounds: map[string]string{"quick": "s <= 3 symbolic steps (then up to s+2 undos / 2 undos + 2 redos)", "thorough": "s <= 4"},
+		Rule:   "one state per completed symbolic path (a path = one command sequence)",
+		IgnoreKinds: []string{"panic", "hang", "deadlock", "spin"},
 	}
 }
